@@ -712,6 +712,10 @@ func (g *Gen) Stmts(sc *scope, d int) []Pipeline {
 		i.ty = TNum
 		inc := Pipeline{CSet{Lvs: []LValue{{X: i.id}}, Rhs: []Expr{cap1(CBuiltin{B: "+", Args: []Expr{EVar{i.id}, EStr{"1"}}})}}}
 		body = append(Chunk{inc}, body...)
+		if g.p(0.3) {
+			// the iteration ends by a flow command
+			body = append(body, Pipeline{CBuiltin{B: []string{"break", "continue"}[g.n(2)]}})
+		}
 		w := CWhile{Cond: cap1(CBuiltin{B: "<", Args: []Expr{EVar{i.id}, EStr{[]string{"1", "2", "3"}[limit-1]}}}), Body: body, Else: g.optBlock(sc, d, 0.4)}
 		return []Pipeline{{CVar{Lvs: []LValue{{X: i.id}}, Rhs: []Expr{EStr{init}}, HasRhs: true}}, {w}}
 	case k == 6 && compound: // for
